@@ -148,15 +148,20 @@ type hangPanic struct{}
 
 // src is the scripted source. It has no Close method.
 type src struct {
-	data     []byte
-	evs      []ev
-	i, off   int
-	rem      int
-	term     error
-	closes   int
-	closeErr error // what Close returns (sources that can be closed only)
-	reads    int
-	maxReads int
+	data   []byte
+	evs    []ev
+	i, off int
+	rem    int
+	term   error
+	closes int
+	// closesTold: Close calls received after the source had answered a Read with
+	// http.ErrBodyReadAfterClose, i.e. after it had told its reader that its
+	// owner has already closed it (such a source starts with one close, its
+	// owner's; every call counted here is a close on top of that).
+	closesTold int
+	closeErr   error // what Close returns (sources that can be closed only)
+	reads      int
+	maxReads   int
 }
 
 func (s *src) Read(p []byte) (int, error) {
@@ -201,7 +206,13 @@ func (s *src) Read(p []byte) (int, error) {
 // srcC is a source that can be closed; it counts the Close calls it receives.
 type srcC struct{ *src }
 
-func (s srcC) Close() error { s.closes++; return s.closeErr }
+func (s srcC) Close() error {
+	s.closes++
+	if s.term == http.ErrBodyReadAfterClose {
+		s.closesTold++
+	}
+	return s.closeErr
+}
 
 func newSrc(data []byte, evs []ev) *src {
 	return &src{data: data, evs: evs, maxReads: 4*(len(data)+len(evs)) + 16}
@@ -277,6 +288,10 @@ type outcome struct {
 	clean bool  // the consumer saw a normal end of stream
 	hung  bool
 	panic string
+	// MultiReaderCloser, sources already closed by their owner: how many were
+	// closed by Close before they had been read to their end / after WriteTo
+	// had reported their error (both accepted, both counted in the evidence)
+	bodyUntold, bodySurfaced int
 }
 
 func (o outcome) String() string {
